@@ -180,6 +180,10 @@ const MORE: &[&str] = &[
     "Artist:\u{4e00}\u{a0d}\u{d0a}\u{a0a}x",
     "Mode\u{ff1a}3",
     "$bg=real.jpg",
+    "[General] // see [Metadata]",
+    "[Metadata] //]",
+    "[HitObjects]//x]",
+    "[Difficulty] // [x",
     "osu file format v1v4",
     "osu file format v14 v7",
     "osu file format v9v",
